@@ -257,6 +257,42 @@ def r08d(ctx):
                                     x == ('const', k)):
                             need[k] = need[k] or True
                 pol = {v for _, v in conds}
+                # each of the three tests ranges over EVERY node of the width group (the
+                # component the creating loop iterates), not only over the node that sizes
+                # the masker
+                loops = [x for x in e.ctx if x[0] == 'loop' and x[2] is not None]
+                group = None
+                for lp in loops:
+                    if lp[2][0] == 'elem':          # for n in <component>
+                        group = lp[2]
+                if group is None:
+                    raise AnalysisError('R08d: width-group loop of build_shared_features_map '
+                                        'not found')
+                for k in need:
+                    def has_k(x, k=k):
+                        return mentions(x, lambda y: (y[0] == 'global' and y[1].endswith(k)) or
+                                        y == ('const', k))
+                    quantified = False
+                    for a, _v in conds:
+                        for x in subterms(a):
+                            if is_call(x, 'builtins.any', 'builtins.all') and x[2] and \
+                                    x[2][0][0] == 'comp' and x[2][0][3] and \
+                                    x[2][0][3][0][1] == group and has_k(x[2][0][2][0]):
+                                own = [y for y in subterms(x[2][0][2][0])
+                                       if y[0] == 'elem' and y[1] == group]
+                                outer = [y for y in own if any(y == ('elem', lp[2], lp[1])
+                                                               for lp in loops)]
+                                if own and not outer:
+                                    quantified = True
+                    if need[k]:
+                        ctx.ob('R08d', f'build_shared_features_map tests {k} on every node of '
+                               f'the width group ({repo.classes[c].name} site)', quantified,
+                               'any(... for node in group)' if quantified else
+                               f'the {k} test is not quantified over all nodes of the width group '
+                               f'(only the node that sizes the masker is tested): a group that '
+                               f'reaches the network interface through another node (an '
+                               f'activation after the last layer) gets a trainable masker and '
+                               f'the output width can be pruned', where(bs, e.node))
                 if is_frozen:
                     # some test among the three is true
                     ok = bool(conds) and (True in pol)
